@@ -44,4 +44,7 @@ else
   go build $MODARGS -o $BIN ./cmd/vcheck 2> bin/build.log || fail_build
 fi
 export VERIF_SRC="$SRC"
-exec ./$BIN "$ID" --tier "$TIER"
+# thorough runs stop enumerating after a soft deadline (default 20 min) and then report the cap (exhaustive:false); exit 0
+SOFT=0
+[ "$TIER" = thorough ] && SOFT="${VERIF_SOFT_SECS:-1200}"
+exec ./$BIN "$ID" --tier "$TIER" --soft "$SOFT"
